@@ -60,6 +60,11 @@ EXP = {
     "epoch": (None, "Thu, 01 Jan 1970 00:00:00 GMT"),   # the usual deletion idiom
     "mabad+past": ("abc", _date(T0 - 86400)),            # the malformed Max-Age is ignored, Expires applies
     "mabad+fut": ("1x", _date(T0 + 10)),
+    # the same instants in shapes other than the canonical one
+    "past-nowd": (None, _date(T0 - 86400)[5:]),
+    "past-utc": (None, _date(T0 - 86400).replace("GMT", "UTC")),
+    "past-nosp": (None, _date(T0 - 86400).replace(", ", ",")),
+    "fut-nowd": (None, _date(T0 + 10)[5:]),
     "mahuge": ("9" * 400, None),                         # more seconds than a float holds: a cookie that does not expire
 }
 DOM = {"-": None, "e": "example.com", ".e": ".example.com", "s": "sub.example.com", "o": "other.com", "com": "com",
@@ -74,7 +79,7 @@ DIMS = [
     ("path", ["-", "/a", "/a/", "a", "/", "/a//", "/a/b/"]),
     ("rpath", ["/", "/a/b", "/a"]),
     ("secure", [0, 1]),
-    ("exp", ["-", "ma10", "ma0", "past", "fut", "ma-1", "mabad", "epoch", "mabad+past", "mabad+fut", "mahuge"]),
+    ("exp", ["-", "ma10", "ma0", "past", "fut", "ma-1", "mabad", "epoch", "mabad+past", "mabad+fut", "mahuge", "past-nowd", "past-utc", "past-nosp", "fut-nowd"]),
     ("name", ["n", "m"]),
     ("val", ["u", "same", "u+flag", "u+kv", "u+h2dom", "u+h2path", "u+h2age"]),
 ]
@@ -84,7 +89,7 @@ QUICK_DIMS = [
     ("path", ["-", "/a", "/a/", "/a//"]),
     ("rpath", ["/", "/a/b"]),
     ("secure", [0, 1]),
-    ("exp", ["-", "ma10", "ma0", "past", "epoch", "mabad+past", "mahuge"]),
+    ("exp", ["-", "ma10", "ma0", "past", "epoch", "mabad+past", "mahuge", "past-nowd", "past-utc", "fut-nowd"]),
     ("name", ["n", "m"]),
     # "same": a constant value, so that a re-issued cookie can equal the stored one; "+flag"/"+kv": an attribute this
     # implementation does not know (valueless / with a value) right behind the pair - RFC 6265 5.2: ignored
